@@ -466,6 +466,24 @@ def float_witness():
     return out
 
 
+def s2s_multi_directed():
+    """Always replayed: 2-3 all-spot nodes whose pods need ONE replacement node that a cheaper spot type can be, with the
+    SpotToSpotConsolidation gate off and on, under multi- and single-node consolidation and a controller round: with the gate
+    off neither method may replace spot by spot (multi-node has no 15-option rule, the gate is all that holds it back)."""
+    out = []
+    for ncand in (2, 3):
+        for flag in (False, True):
+            for spread in (False, True):
+                # spot t3 nodes (4 units each); with ALL of them removed their pods fit one t2 (spot: 2 units), a different type
+                cat = default_catalog(spread=spread)
+                nodes = [dc.node("c%d" % i, "pa", "t3", ct="spot", zone="zone-a") for i in range(1, ncand + 1)]
+                pods = [dc.pod("p%d" % i, "c%d" % i, cpu=1300 if ncand == 3 else 1900) for i in range(1, ncand + 1)]
+                steps = [{"a": "Method", "method": "multi"}, {"a": "Method", "method": "single"}, {"a": "Round"}]
+                out.append(scenario("s2s-multi:%d:%s:%s" % (ncand, flag, spread), cat, [dc.pool("pa")], nodes, pods, steps,
+                                    {"kind": "s2s-multi", "ncand": ncand, "flag": flag}, s2s=flag))
+    return out
+
+
 def s2s_directed(rng):
     """Single-node spot-to-spot around the 15-option threshold: a spot node and k strictly cheaper spot types
     (k = 13..17, and 17 with minValues 16 / 20)."""
